@@ -146,36 +146,33 @@ pub mod restrictions {
         }
     }
 
-    impl CheckRestrictions for i32 {
-        fn check_restrictions(&self, restrictions: Option<Rc<Restrictions>>) -> SoapResult<()> {
-            if let Some(restrictions) = restrictions {
-                if let Some(min_inclusive) = restrictions.min_inclusive {
-                    if *self < min_inclusive {
-                        return Err(SoapError::Restriction("minInclusive restriction not met".to_string()));
-                    }
-                }
-
-                if let Some(max_inclusive) = restrictions.max_inclusive {
-                    if max_inclusive < *self {
-                        return Err(SoapError::Restriction("maxInclusive restriction not met".to_string()));
-                    }
-                }
-
-                if let Some(min_exclusive) = restrictions.min_exclusive {
-                    if *self <= min_exclusive {
-                        return Err(SoapError::Restriction("minExclusive restriction not met".to_string()));
-                    }
-                }
-
-                if let Some(max_exclusive) = restrictions.max_exclusive {
-                    if max_exclusive <= *self {
-                        return Err(SoapError::Restriction("maxExclusive restriction not met".to_string()));
-                    }
-                }
+    /// Range facets on an integer value. The bounds are `i32`, the value may come from a wider carrier.
+    fn check_range(value: i128, restrictions: &Restrictions) -> SoapResult<()> {
+        if let Some(min_inclusive) = restrictions.min_inclusive {
+            if value < i128::from(min_inclusive) {
+                return Err(SoapError::Restriction("minInclusive restriction not met".to_string()));
             }
-
-            Ok(())
         }
+
+        if let Some(max_inclusive) = restrictions.max_inclusive {
+            if i128::from(max_inclusive) < value {
+                return Err(SoapError::Restriction("maxInclusive restriction not met".to_string()));
+            }
+        }
+
+        if let Some(min_exclusive) = restrictions.min_exclusive {
+            if value <= i128::from(min_exclusive) {
+                return Err(SoapError::Restriction("minExclusive restriction not met".to_string()));
+            }
+        }
+
+        if let Some(max_exclusive) = restrictions.max_exclusive {
+            if i128::from(max_exclusive) <= value {
+                return Err(SoapError::Restriction("maxExclusive restriction not met".to_string()));
+            }
+        }
+
+        Ok(())
     }
 
     macro_rules! impl_check_restrictions_for_int {
@@ -183,15 +180,17 @@ pub mod restrictions {
         $(
             impl CheckRestrictions for $t {
                 fn check_restrictions(&self, restrictions: Option<Rc<Restrictions>>) -> SoapResult<()> {
-                    let value = i32::try_from(*self).map_err(|e| SoapError::Restriction(e.to_string()))?;
-                    value.check_restrictions(restrictions)
+                    if let Some(restrictions) = restrictions {
+                        check_range(i128::from(*self), &restrictions)?;
+                    }
+                    Ok(())
                 }
             }
         )*
     }
 }
 
-    impl_check_restrictions_for_int!(i8, u8, i16, u16, u32, i64, u64);
+    impl_check_restrictions_for_int!(i8, u8, i16, u16, i32, u32, i64, u64);
 
     impl CheckRestrictions for bool {
         fn check_restrictions(&self, _restrictions: Option<Rc<Restrictions>>) -> SoapResult<()> {
@@ -256,33 +255,8 @@ pub mod restrictions {
                 return Ok(());
             }
 
-            let value = self.parse::<i32>()?;
-
-            if let Some(min_inclusive) = restrictions.min_inclusive {
-                if value < min_inclusive {
-                    return Err(SoapError::Restriction("minInclusive restriction not met".to_string()));
-                }
-            }
-
-            if let Some(max_inclusive) = restrictions.max_inclusive {
-                if max_inclusive < value {
-                    return Err(SoapError::Restriction("maxInclusive restriction not met".to_string()));
-                }
-            }
-
-            if let Some(min_exclusive) = restrictions.min_exclusive {
-                if value <= min_exclusive {
-                    return Err(SoapError::Restriction("minExclusive restriction not met".to_string()));
-                }
-            }
-
-            if let Some(max_exclusive) = restrictions.max_exclusive {
-                if max_exclusive <= value {
-                    return Err(SoapError::Restriction("maxExclusive restriction not met".to_string()));
-                }
-            }
-
-            Ok(())
+            let value = self.parse::<i128>()?;
+            check_range(value, &restrictions)
         }
     }
 }
